@@ -352,3 +352,41 @@ func VC_C04_variadic_in_lengths() {
 	verifAssert(got == 7 || got == -1, "C04.variadic-in-lengths.result-is-configured")
 	verifReached("C04.variadic-in-lengths")
 }
+
+// VC_C04_matches: conditions registered in bulk with Matches(pairs...) behave like the
+// same When(...).Return(...) clauses: first match wins, otherwise the default - on every
+// call, not only the first.
+func VC_C04_matches() {
+	vEnv()
+	defer func() {
+		if e := recover(); e != nil {
+			verifAssert(false, "C04.matches.no-panic")
+		}
+	}()
+	d := verifInt("default")
+	w, err := CreateWhen(nil, vF2, nil, []interface{}{d}, false)
+	verifAssert(err == nil, "C04.matches.create-ok")
+	a1, b1, r1 := verifInt("a1"), verifInt("b1"), verifInt("r1")
+	a2, b2, r2 := verifInt("a2"), verifInt("b2"), verifInt("r2")
+	if verifBool("afterWhen") {
+		// a condition registered the ordinary way first
+		w.When(a1, b1).Return(r1)
+		w.Matches(arg.Pair{Args: []interface{}{a2, b2}, Return: r2})
+	} else {
+		w.Matches(arg.Pair{Args: []interface{}{a1, b1}, Return: r1}, arg.Pair{Args: []interface{}{a2, b2}, Return: r2})
+	}
+	f := vStubFunc(w).(func(int, int) int)
+	p, q := verifInt("p"), verifInt("q")
+	want := d
+	if p == a1 && q == b1 {
+		want = r1
+	} else if p == a2 && q == b2 {
+		want = r2
+	}
+	for call := 0; call < 3; call++ {
+		got, panicked := vCall2(f, p, q)
+		verifAssert(!panicked, "C04.matches.no-panic")
+		verifAssert(got == want, "C04.matches.first-match-else-default-on-every-call")
+	}
+	verifReached("C04.matches")
+}
